@@ -322,6 +322,19 @@ pub fn run_job(job: Job) -> JobResult {
         })));
     }
 
+    // remember where the last panic was raised (reported with the job's error)
+    static LAST_PANIC_AT: std::sync::Mutex<String> = std::sync::Mutex::new(String::new());
+    {
+        let prev = std::panic::take_hook();
+        std::panic::set_hook(Box::new(move |info| {
+            if let Some(l) = info.location() {
+                if let Ok(mut g) = LAST_PANIC_AT.lock() {
+                    *g = format!("{}:{}", l.file(), l.line());
+                }
+            }
+            prev(info);
+        }));
+    }
     let rt = tokio::runtime::Builder::new_current_thread()
         .enable_all()
         // one blocking-pool thread: spawn_blocking / tokio::fs work is executed in
@@ -350,7 +363,7 @@ pub fn run_job(job: Job) -> JobResult {
                 .cloned()
                 .or_else(|| p.downcast_ref::<&str>().map(|s| s.to_string()))
                 .unwrap_or_else(|| "panic".into());
-            result.error = Some(format!("panic in job: {msg}"));
+            result.error = Some(format!("panic in job: {msg} [at {}]", LAST_PANIC_AT.lock().map(|g| g.clone()).unwrap_or_default()));
         }
     }
     interpose::fs_unwatch();
